@@ -184,6 +184,12 @@ theorem C12_toDag_acyclic (p : PD) (res : List (Var × Var))
     (h : p.toDag = some res) : Acyclic res :=
   PD.toDag_acyclic p res hdir hund h
 
+/-- **`PDAG.to_dag` keeps every directed edge**: the result contains all directed edges of the PDAG, for EVERY
+    partially directed graph on which the sink-removal loop succeeds (it only adds orientations of undirected edges) -/
+theorem C12_toDag_keeps_directed (p : PD) (res : List (Var × Var)) (h : p.toDag = some res) :
+    ∀ e ∈ p.directed, e ∈ res :=
+  PD.toDag_keeps_directed p res h
+
 /-- non-vacuity: the chain PDAG 0 - 1 - 2 is converted -/
 example : (PD.mk [0, 1, 2] [] [(0, 1), (1, 2)]).toDag = some [(1, 0), (2, 1)] := by decide
 
